@@ -13,6 +13,7 @@ shared by C14 (world defaults) and C15 (asserted data).
 import LnnVerif.Model.Store
 import Mathlib.Tactic.Tauto
 import Mathlib.Data.List.Induction
+import Mathlib.Data.List.Forall2
 
 set_option linter.unusedSectionVars false
 
@@ -728,11 +729,68 @@ theorem mapM_except_isOk_iff (f : β → Except ε γ) (l : List β) :
       exact ⟨b :: bs, (mapM_except_ok_iff f _ _).mpr
         (List.Forall₂.cons hb ((mapM_except_ok_iff f l bs).mp hbs))⟩
 
+/-- the error reported is that of the first entry that fails -/
+theorem mapM_except_first_error (f : β → Except ε γ) (pre : List β) (e : β) (post : List β) (err : ε)
+    (hpre : ∀ x ∈ pre, ∃ b, f x = .ok b) (he : f e = .error err) :
+    (pre ++ e :: post).mapM f = .error err := by
+  induction pre with
+  | nil => rw [List.nil_append, List.mapM_cons, he]; rfl
+  | cons x pre ih =>
+    obtain ⟨b, hb⟩ := hpre x (List.mem_cons_self ..)
+    rw [List.cons_append, List.mapM_cons, hb, ih (fun y hy => hpre y (List.mem_cons_of_mem _ hy))]
+    rfl
+
 theorem except_ok_or_error (x : Except ε γ) : (∃ b, x = .ok b) ∨ ∃ e, x = .error e := by
   cases x with
   | ok b => exact Or.inl ⟨b, rfl⟩
   | error e => exact Or.inr ⟨e, rfl⟩
 
 end mapM
+
+/-! ## association lists keyed by groundings -/
+
+section assoc
+
+variable {β γ : Type}
+
+theorem find?_key_of_forall₂ {R : Gr × β → Gr × γ → Prop} (hkey : ∀ e p, R e p → p.1 = e.1)
+    {l₁ : List (Gr × β)} {l₂ : List (Gr × γ)} (h : List.Forall₂ R l₁ l₂) (g : Gr) (e : Gr × β)
+    (he : l₁.find? (fun e => e.1 == g) = some e) :
+    ∃ p, l₂.find? (fun p => p.1 == g) = some p ∧ R e p := by
+  induction h with
+  | nil => simp at he
+  | @cons a b l₁ l₂ hab _ ih =>
+    have hk := hkey a b hab
+    by_cases ha : a.1 = g
+    · have : (a.1 == g) = true := by simpa using ha
+      rw [List.find?_cons_of_pos (p := fun e : Gr × β => e.1 == g) this] at he
+      cases he
+      exact ⟨b, List.find?_cons_of_pos (p := fun p : Gr × γ => p.1 == g) (by simpa [hk] using ha), hab⟩
+    · have : ¬ (a.1 == g) = true := by simpa using ha
+      rw [List.find?_cons_of_neg (p := fun e : Gr × β => e.1 == g) this] at he
+      obtain ⟨p, hp, hr⟩ := ih he
+      exact ⟨p, by
+        rw [List.find?_cons_of_neg (p := fun p : Gr × γ => p.1 == g) (by simpa [hk] using ha)]; exact hp, hr⟩
+
+theorem map_fst_of_forall₂ {R : Gr × β → Gr × γ → Prop} (hkey : ∀ e p, R e p → p.1 = e.1)
+    {l₁ : List (Gr × β)} {l₂ : List (Gr × γ)} (h : List.Forall₂ R l₁ l₂) :
+    l₂.map (·.1) = l₁.map (·.1) := by
+  induction h with
+  | nil => rfl
+  | cons hab _ ih => rw [List.map_cons, List.map_cons, ih, hkey _ _ hab]
+
+theorem find?_key_of_nodup {l : List (Gr × β)} (hn : (l.map (·.1)).Nodup) {e : Gr × β} (he : e ∈ l) :
+    l.find? (fun x => x.1 == e.1) = some e := by
+  induction l with
+  | nil => simp at he
+  | cons a l ih =>
+    rw [List.map_cons, List.nodup_cons] at hn
+    rcases List.mem_cons.mp he with rfl | h
+    · exact List.find?_cons_of_pos (p := fun x : Gr × β => x.1 == e.1) (by simp)
+    · have : a.1 ≠ e.1 := fun h' => hn.1 (h' ▸ List.mem_map.mpr ⟨e, h, rfl⟩)
+      rw [List.find?_cons_of_neg (p := fun x : Gr × β => x.1 == e.1) (by simpa using this)]
+      exact ih hn.2 h
+
+end assoc
 
 end LNN
